@@ -148,6 +148,62 @@ def _inline_temps(func: ast.AST) -> int:
     return done
 
 
+_NEGATIVE = (ast.NotEq, ast.NotIn, ast.IsNot)
+
+
+def _negate(test: ast.expr) -> ast.expr:
+    if isinstance(test, ast.UnaryOp) and isinstance(test.op, ast.Not):
+        return test.operand
+    if isinstance(test, ast.Compare) and len(test.ops) == 1 and type(test.ops[0]) in _NEG:
+        return ast.copy_location(ast.Compare(left=test.left, ops=[_NEG[type(test.ops[0])]()], comparators=test.comparators), test)
+    return ast.copy_location(ast.UnaryOp(op=ast.Not(), operand=test), test)
+
+
+def _is_negative(test: ast.expr) -> bool:
+    if isinstance(test, ast.UnaryOp) and isinstance(test.op, ast.Not):
+        return True
+    return isinstance(test, ast.Compare) and len(test.ops) == 1 and isinstance(test.ops[0], _NEGATIVE)
+
+
+def _terminates(block: list[ast.stmt]) -> bool:
+    if not block:
+        return False
+    last = block[-1]
+    if isinstance(last, (ast.Return, ast.Raise, ast.Continue, ast.Break)):
+        return True
+    if isinstance(last, ast.If):
+        return bool(last.orelse) and _terminates(last.body) and _terminates(last.orelse)
+    return False
+
+
+def _shape_ifs(tree: ast.AST) -> tuple[int, int]:
+    """`if <negative test>: A else: B` -> `if <positive test>: B else: A`;  `if c: ...return` + `else: rest` -> the
+    rest follows the `if` (no else after a branch that cannot fall through)"""
+    flipped = flattened = 0
+    for node in ast.walk(tree):
+        if isinstance(node, ast.If) and node.orelse and _is_negative(node.test):
+            node.test = _negate(node.test)
+            node.body, node.orelse = node.orelse, node.body
+            flipped += 1
+    changed = True
+    while changed:
+        changed = False
+        for holder in ast.walk(tree):
+            for fld in ("body", "orelse", "finalbody"):
+                block = getattr(holder, fld, None)
+                if not isinstance(block, list) or not block or not isinstance(block[0], ast.stmt):
+                    continue
+                for i, stmt in enumerate(block):
+                    if isinstance(stmt, ast.If) and stmt.orelse and _terminates(stmt.body):
+                        rest = stmt.orelse
+                        stmt.orelse = []
+                        block[i + 1 : i + 1] = rest
+                        flattened += 1
+                        changed = True
+                        break
+    return flipped, flattened
+
+
 def normal_form(tree: ast.Module) -> ast.Module:
     """the name-independent part: run before local names are alpha-normalised"""
     tree = _Canon(sort_operands=False).visit(tree)
@@ -155,6 +211,7 @@ def normal_form(tree: ast.Module) -> ast.Module:
     for node in ast.walk(tree):
         if isinstance(node, (ast.FunctionDef, ast.AsyncFunctionDef)):
             done += _inline_temps(node)
+    _shape_ifs(tree)
     tree.ngosa_temps_inlined = done  # type: ignore[attr-defined]
     return tree
 
